@@ -86,6 +86,12 @@ def inject(module):
         d[k] = v
     if "struct" in d:
         d["struct"] = shims.struct_shim
+    if "socket" in d:
+        d["socket"] = shims.socket_shim()
+    if module.__name__ == "xknx.telegram.address":
+        # BaseAddress.__hash__ is hash((cls, raw)): hash by class only, so that symbolic and concrete addresses agree
+        # (equal objects still hash equal; dicts/sets fall back on __eq__, which forks symbolically on raw equality)
+        d["hash"] = shims.address_hash_shim
 
 
 class _Finder(importlib.abc.MetaPathFinder):
